@@ -8,9 +8,10 @@ from sa.run import ALL_IDS, run_property
 
 ROOT = os.environ.get('ROOT', '/tmp/wt')
 # round 2 seeds are stored as <prop>-c / <prop>-d next to the round 1 seeds -a / -b
-RENAME = {'a': 'c', 'b': 'd'} if os.environ.get('ROUND') == '2' else {}
+RENAME = {'a': 'c', 'b': 'd'} if os.environ.get('ROUND') == '2' else {'a': 'e', 'b': 'f'} if os.environ.get('ROUND') == '5' else {}
+NOCHECK = bool(os.environ.get('NOCHECK'))  # metas are filled by tools/refresh_meta.py afterwards
 clean = World('/repo')
-base = {pid: {o.key for o in run_property(pid, clean).violations()} for pid in ALL_IDS}
+base = {} if NOCHECK else {pid: {o.key for o in run_property(pid, clean).violations()} for pid in ALL_IDS}
 head = subprocess.run(['git','-C','/repo','rev-parse','--short','HEAD'],capture_output=True,text=True).stdout.strip()
 rows = []
 for txt in sorted(os.listdir(f'{ROOT}/verified')):
@@ -29,9 +30,9 @@ for txt in sorted(os.listdir(f'{ROOT}/verified')):
     shutil.copy(f'{ROOT}/verified/{vsid}.rebased.diff', f'{dst}/patch.diff')
     shutil.copy(f'{src}/demo.py', f'{dst}/demo.py')
     if os.path.exists(f'{src}/notes.md'): shutil.copy(f'{src}/notes.md', f'{dst}/notes.md')
-    world = world_with_patch('/repo', f'{dst}/patch.diff')
+    world = None if NOCHECK else world_with_patch('/repo', f'{dst}/patch.diff')
     caught, rules = [], {}
-    for pid in ALL_IDS:
+    for pid in ([] if NOCHECK else ALL_IDS):
         ck = run_property(pid, world)
         new = sorted({o.key for o in ck.violations()} - base[pid])
         if new:
